@@ -5,11 +5,6 @@ import SuxModel.BitFieldVec.BulkBase
 namespace Sux.BFV.C10
 open Sux Sux.BFV
 
-theorem succ_mul_le {q d : Nat} (W : Nat) (h : q < d) : q * W + W ≤ d * W := by
-  have := Nat.mul_le_mul_right W (show q + 1 ≤ d from h)
-  rw [Nat.add_mul, Nat.one_mul] at this
-  exact this
-
 /-- From a per-word description of the new store (first word, middle words, last word, frame)
 to the bit-stream statement "the range `[dp, dp+L)` now holds source bits `[sp, sp+L)`". -/
 theorem assemble {W : Nat} (hW : 0 < W) (S : Nat → Bool) (d d' : Array Nat)
